@@ -6,6 +6,7 @@ import TwProofs.Lemmas.Sort
 import TwProofs.C04
 import TwProofs.Lemmas.TextVars
 import TwProofs.Lemmas.TextDot
+import TwProofs.Lemmas.TextIndex
 
 namespace Tw.C12
 open Tw
@@ -250,6 +251,59 @@ example : evaluateStringPure [] (b "{{ user.name }}") [(b "user", .struct [(b "N
     (.struct [(b "Name", true, .str (b "Ann")), (b "age", false, .int 3)]) (by simp) (by decide) (b "name") (by decide)
     [32] [32] (by decide) (by decide) [(b "Name", .str (b "Ann"))] (by rfl) (.str (b "Ann")) (Or.inr ⟨by rfl, by rfl⟩)
   have hs : dotSrc [32] (b "user") (b "name") [32] = b "{{ user.name }}" := by decide
+  rw [hs] at this
+  exact this
+
+
+/-- inside the array the index reads the element at that position -/
+theorem arrIndex_in (xs : List Val) (n : Nat) (h : n < xs.length) (hb : n < 2 ^ 63) : arrIndex xs (Int64.ofNat n) = xs.getD n .nil := by
+  unfold arrIndex
+  have e : (Int64.ofNat n).toInt = n := Int64.toInt_ofNat_of_lt hb
+  have l : ¬ (Int64.ofNat n < 0) := by
+    rw [Int64.lt_iff_toInt_lt, e]; simp
+  simp [l, e]; omega
+
+/-- past the end the index reads nil -/
+theorem arrIndex_out (xs : List Val) (n : Nat) (h : xs.length ≤ n) (hb : n < 2 ^ 63) : arrIndex xs (Int64.ofNat n) = .nil := by
+  unfold arrIndex
+  have e : (Int64.ofNat n).toInt = n := Int64.toInt_ofNat_of_lt hb
+  simp [e]; omega
+
+/-- **an element of a root slice prints as its converted value, from the source bytes on**: for every
+    data map with distinct keys, every entry `(k, g)` whose value converts to an array (a slice or an
+    array of supported elements) and every decimal number `d` that fits in an int64, the template
+    `{{ k[d] }}` — with any white space after `{{`, around the number and before `}}` — renders the printed
+    converted element at position `d`, and the printed nil (nothing) when `d` is past the end.
+    Lexer (`lex_index`: IDENT, LBRACKET, INT, RBRACKET), parser (`parse_index_stmt`) and evaluator composed. -/
+theorem index_value_prints (custom : List ((VType × Bytes) × Nat)) (data : List (Bytes × GoVal)) (env : Env) (hd : KeysDistinct data)
+    (h : envFromMap data = .ok env) (k : Bytes) (g : GoVal) (hm : (k, g) ∈ data) (hk : isName k) (d : Bytes) (hdg : isDigits d)
+    (hb : digitsToNat d < 2 ^ 63) (g1 g2 g3 g4 : Bytes) (hg1 : allWs g1) (hg2 : allWs g2) (hg3 : allWs g3) (hg4 : allWs g4)
+    (xs : List Val) (harr : nativeToObject g = some (.arr xs)) :
+    evaluateStringPure custom (idxSrc g1 k g3 d g4 g2) data = .ok (xs.getD (digitsToNat d) .nil).toStr := by
+  obtain ⟨v0, hv0, hget⟩ := data_is_visible data env hd h k g hm
+  have hv0' : v0 = .arr xs := by rw [harr] at hv0; cases hv0; rfl
+  subst hv0'
+  obtain ⟨prog, t2, t3, t4, t5, hp, hs⟩ := parse_index_source g1 k g3 d g4 g2 hg1 hg2 hg3 hg4 hk hdg (by omega)
+  have hidx : arrIndex xs (Int64.ofNat (digitsToNat d)) = xs.getD (digitsToNat d) .nil := by
+    by_cases hl : digitsToNat d < xs.length
+    · exact arrIndex_in xs _ hl hb
+    · rw [arrIndex_out xs _ (by omega) hb]
+      simp [List.getD, List.getElem?_eq_none (show xs.length ≤ digitsToNat d by omega)]
+  unfold evaluateStringPure envOrFail
+  rw [hp]
+  simp only [h, hs]
+  rw [show evalFuel = (evalFuel - 4) + 1 + 1 + 1 + 1 from by decide, evalProg_cons, evalStmt_succ]
+  simp only [stmtBody, calleesAt_expr]
+  simp only [evalExpr, hget, hidx, Res.bind_ok]
+  rw [evalProg_nil]
+  simp [resToOut]
+
+example : evaluateStringPure [] (b "{{ names[ 1 ] }}") [(b "names", .slice [.str (b "Ann"), .str (b "Bob")])] = .ok (b "Bob") := by
+  have := index_value_prints [] [(b "names", .slice [.str (b "Ann"), .str (b "Bob")])]
+    [[(b "names", .arr [.str (b "Ann"), .str (b "Bob")])]] (by simp [KeysDistinct]) (by rfl) (b "names")
+    (.slice [.str (b "Ann"), .str (b "Bob")]) (by simp) (by decide) (b "1") (by decide) (by decide)
+    [32] [32] [32] [32] (by decide) (by decide) (by decide) (by decide) [.str (b "Ann"), .str (b "Bob")] (by rfl)
+  have hs : idxSrc [32] (b "names") [32] (b "1") [32] [32] = b "{{ names[ 1 ] }}" := by decide
   rw [hs] at this
   exact this
 
